@@ -71,7 +71,7 @@ Section Quic.
     ~ In p (peer_links r (run_gen U lb (init me) (emitted false qinit (h ++ Closed p :: h')))).
   Proof.
     intros Hn. rewrite emitted_app. cbn [emitted]. rewrite closed_emits_lost.
-    cbn [app]. apply (lost_never_reported U lb).
+    cbn [app]. apply (lost_never_reported U lb true).
     intros H. apply emitted_est in H. contradiction.
   Qed.
 End Quic.
@@ -92,7 +92,7 @@ Theorem usurped_link_still_reported_when_only_current_told :
   evs = [Est 0%nat; Est 1%nat]
   /\ In 0%nat (q_closed (fold_left (fun t a => fst (qstep usurp_univ true t a)) usurp_history qinit))
   /\ get_peer_links usurp_univ (run_gen usurp_univ true (init 1) evs) 2 = [0%nat]
-  /\ yielded usurp_univ true 1 evs 1 2 = [0%nat].
+  /\ yielded usurp_univ true true 1 evs 1 2 = [0%nat].
 Proof. vm_compute. repeat split; auto. Qed.
 
 (* a reconnect of the same peer from the same address has the same uuid: the
